@@ -674,6 +674,7 @@ func (e *Env) evalQuant(n *CQuant) V {
 	defer func() { x.noDefine-- }()
 	var sortName string
 	var rng string
+	pattern := ""
 	if n.Lo != nil {
 		sortName = "Int"
 		lo := x.toMathInt(e.eval(n.Lo))
@@ -681,7 +682,7 @@ func (e *Env) evalQuant(n *CQuant) V {
 		// When the bound variable indexes exactly one slice expression, quantify over the
 		// absolute index into the backing array: the trigger (select (select S base) j)
 		// then contains no arithmetic and E-matching works.
-		if xs := singleIndexedSlice(n.Body, n.Var); xs != nil {
+		if xs, single := indexedSlices(n.Body, n.Var); xs != nil && (single || n.Forall) {
 			sv := func() (v V) {
 				defer func() {
 					if r := recover(); r != nil {
@@ -697,6 +698,13 @@ func (e *Env) evalQuant(n *CQuant) V {
 				off := "(s_off " + sv.S + ")"
 				ce.names[n.Var] = mathV("(- " + bound + " " + off + ")")
 				rng = "(and (<= (+ " + off + " " + lo + ") " + bound + ") (< " + bound + " (+ " + off + " " + hi + ")))"
+				if !single {
+					// several slices are indexed by the bound variable (typically s[k] == old(s[k])):
+					// the first current-state one is the pivot and carries the trigger
+					et := sv.T.Underlying().(*types.Slice).Elem()
+					sarr := x.heapGet(e.cur, heapKeySlice(et), et)
+					pattern = " :pattern ((select (select " + sarr + " (s_base " + sv.S + ")) " + bound + "))"
+				}
 			}
 		}
 		if rng == "" {
@@ -711,6 +719,9 @@ func (e *Env) evalQuant(n *CQuant) V {
 	}
 	body := ce.evalBool(n.Body)
 	if n.Forall {
+		if pattern != "" {
+			return V{T: boolT, S: "(forall ((" + bound + " " + sortName + ")) (! " + implies(rng, body) + pattern + "))"}
+		}
 		return V{T: boolT, S: "(forall ((" + bound + " " + sortName + ")) " + implies(rng, body) + ")"}
 	}
 	return V{T: boolT, S: "(exists ((" + bound + " " + sortName + ")) " + and(rng, body) + ")"}
